@@ -42,7 +42,7 @@ def big_cases(seed, n):
         return vs if len(vs) >= 3 and area2(vs) != 0 else None
 
     out = []
-    fams = ["sliver3", "sliver3", "sliver4", "tri", "convex", "hole", "two"]
+    fams = ["sliver3", "sliver3", "sliver4", "tri", "convex", "hole", "two", "star"]
     while len(out) < n:
         fam = fams[len(out) % len(fams)]
         # slivers live on a grid of 2^20: every triangle of the fan is thin, so its doubled area is a small integer and all
@@ -72,6 +72,17 @@ def big_cases(seed, n):
             ho = convex(ox, oy, max(3, L // 16), 5)
             polys = [[sh, ho]] if sh and ho and abs(area2(sh)) > 64 * abs(area2(ho)) and min(
                 (x - ox) ** 2 + (y - oy) ** 2 for x, y in sh) > (L // 4) ** 2 else None
+        elif fam == "star":                        # star-shaped (simple, not convex): increasing angles, alternating radii
+            m = r.choice([6, 8, 10, 14])
+            angs = sorted(r.uniform(0, 2 * math.pi) for _ in range(m))
+            vs = []
+            for i, a_ in enumerate(angs):
+                rad = L if i % 2 == 0 else max(4, L // r.choice([2, 3, 7]))
+                q = [ox + int(rad * math.cos(a_)), oy + int(rad * math.sin(a_))]
+                if q not in vs:
+                    vs.append(q)
+            gaps = [angs[(i + 1) % m] - angs[i] + (2 * math.pi if i == m - 1 else 0) for i in range(m)]
+            polys = [[vs]] if len(vs) == m and max(gaps) < 3.0 else None
         else:
             a = convex(ox - L, oy, L // 3, 5)
             b = [[ox + L, oy], [ox + 2 * L, oy + r.choice([1, 2])], [ox + 2 * L + 1, oy + r.choice([1, 2, 3])]]
@@ -107,6 +118,14 @@ def big_pipe(ctx, verdict, cases, name="centroidx"):
                 continue
             ints, k = ec.scale_ints([ec.parse_exact(row["x"]["x"]), ec.parse_exact(row["y"]["x"])])
             conj.append("CentroidOK(%s, %s, %s, %s, %s, %s, %d, %d)" % (rs, ix, sh, ks, ec.tla_int(ints[0]), ec.tla_int(ints[1]), 1 << k, sc))
+        # direction and signed area of every ring (all rings of this tier are simple)
+        for rg, ro in zip(rings, o.get("rings", [])):
+            if ro["pan"] or ro["sa2"]["x"] in ("nan", "+inf", "-inf", "panic"):
+                conj.append("FALSE")
+                continue
+            ints, k = ec.scale_ints([ec.parse_exact(ro["sa2"]["x"])])
+            conj.append("RingOK(<<%s>>, <<%s>>, %s, %s, %d, %d)" % (", ".join(ec.tla_pt(q) for q in rg), ", ".join(str(i) for i in range(2, len(rg) + 1)),
+                                                                    "TRUE" if ro["ccw"] else "FALSE", ec.tla_int(ints[0]), 1 << k, sc))
         exprs.append(" /\\ ".join(conj) if conj else "TRUE")
         sigs.append("centroid|big|" + c["fam"] + "|outside-2^-30-of-scale")
     spec = open(os.path.join(ctx.specdir, "CentroidBig.tla")).read()
